@@ -308,6 +308,8 @@ def execute(scn):
     finally:
         jaxtyping.config.update("jaxtyping_remove_typechecker_stack", old)
     stats.inc("runs")
+    for site, n, exc in states[0].fired:
+        stats.inc(f"fault_fired:{site}:{exc}")
     stats.inc("switch:" + ("on" if scn.get("stack_switch") else "off"))
     fam = scn["family"]
     # 'iff violated' on pure array families (shared with C02)
